@@ -31,6 +31,11 @@ def build_cases(tier, seed):
             # calls, many vehicles charging at once - and every single state stepped twice
             prof.update({"custom_mech": 1.0, "custom_chargers": 1.0, "soc": [0.03, 0.05, 0.1, 0.2], "p_ice": 0.0, "n_vehicles": (6, 14), "n_stations": (2, 4), "plug_counts": [2, 3]})
             opts = {"c16_twice_every": 1, "cosim_ops": {"every": 7, "kinds": ["scale_rate"]}}
+            if i % 8 == 1:
+                # built-in control ranking stations by estimated time to charge (queues and sessions in progress enter the
+                # estimate), few plugs so that vehicles queue
+                ctrl = BUILTIN
+                prof.update({"search_type": "shortest_time_to_charge", "plug_counts": [1, 1, 2], "p_human": 0.4, "p_home_station": 0.2})
         cases.append(trace_case("C16", i, s, prof, ctrl, steps, ["C16"], opts=opts))
     if tier == "thorough":
         for w in ("denver_downtown/denver_demo.yaml", "denver_downtown/denver_demo_fleets.yaml"):
